@@ -38,10 +38,24 @@ Definition c17_ok (q : request) (o : xobs) : bool :=
 (* ---- C16: completion events exactly once and consistent; retry events consistent *)
 Definition last_n {A} (n : nat) (l : list A) : list A := rev (firstn n (rev l)).
 
+(* a rate limiter decides at once: OnRateLimitExceeded fires at the instant of the event before it (or of the start) --
+   never after a wait.  Evaluated for stacks whose only layer that can wait silently is this one limiter (the wait of
+   another limiter or of a bulkhead further out leaves no event at its end) *)
+Definition sole_waiter (stack : list policy) : bool :=
+  Nat.eqb (length (filter (fun p => match p with PLimiter _ _ => true | _ => false end) stack)) 1
+  && negb (existsb (fun p => match p with PBulkhead _ _ => true | _ => false end) stack).
+
+Fixpoint rate_events_immediate (tprev : Z) (l : list event) : bool :=
+  match l with
+  | [] => true
+  | e :: l' => (if kind_is KRateExceeded e then e_time e =? tprev else true) && rate_events_immediate (e_time e) l'
+  end.
+
 Definition c16_ok (q : request) (o : xobs) : bool :=
   let evs := x_events o in
   let '(ls, lf, ld) := q_lsn q in
   let ns := count_kind KExecSuccess evs in let nf := count_kind KExecFailure evs in let nd := count_kind KExecDone evs in
+  (if sole_waiter (q_stack q) then rate_events_immediate (x_start o) evs else true) &&
   (nd =? (if ld then 1 else 0)) && (ns + nf <=? 1)
   && (if ls && lf then ns + nf =? 1 else true)
   && forallb (fun e => if kind_is KExecSuccess e || kind_is KExecFailure e || kind_is KExecDone e
